@@ -7,6 +7,8 @@
   the same mutated inputs, including the number of ReadAt calls made).
 -/
 import ClairModel.Proofs.TarSeg
+import ClairModel.Proofs.RpmHeader
+import ClairModel.Gen.Tar
 
 namespace ClairModel.Props.C06
 open ClairModel
@@ -76,6 +78,81 @@ theorem findSegments_loops_counterexample (st : TarSeg.St) (hz : st.zeroes = fal
 
 /-- The code as fixed rejects that block. -/
 theorem negative_size_rejected : TarSeg.header true negSizeHeader = .fail .negSize := by
+  decide +kernel
+
+/-- Tie A: the constants the model of `findSegments` uses are the ones in the
+    current source of pkg/tarfs/parse.go (block size, field offsets, magic
+    strings, version, length of the size field, the two typeflag lists), and the
+    source still has the two checks the termination / bounds theorems rest on. -/
+theorem tar_constants_match_source :
+    TarSeg.blockSz = Gen.Tar.blockSz ∧ TarSeg.magicOff = Gen.Tar.magicOff ∧ TarSeg.versionOff = Gen.Tar.versionOff ∧
+    TarSeg.typeflagOff = Gen.Tar.typeflag ∧ TarSeg.sizeOff = Gen.Tar.sizeOff ∧ TarSeg.sizeLen = Gen.Tar.sizeLen ∧
+    TarSeg.magicPAX = Gen.Tar.magicPAX ∧ TarSeg.magicGNU = Gen.Tar.magicGNU ∧ TarSeg.magicOldGNU = Gen.Tar.magicOldGNU ∧
+    TarSeg.version00 = Gen.Tar.version ∧ TarSeg.prependFlags = Gen.Tar.prependFlags ∧ TarSeg.dataFlags = Gen.Tar.dataFlags ∧
+    Gen.Tar.rejectsNegativeSize = true ∧ Gen.Tar.probesLastContentByte = true := by
+  decide
+
+/-! ## rpm header (rpm/internal/rpm/header.go) and Info.Load (rpm/native_db.go) -/
+
+/-- If `Header.Parse` accepts a blob then every index entry it verified lies
+    inside the data arena: 0 ≤ offset ≤ dataSize, 1 ≤ count ≤ dataSize, a known
+    type, aligned for its type; with a region, the region entry is a 16-byte BIN
+    value inside the arena and the rest are verified. -/
+theorem rpm_accept_bounds (b : RpmHeader.Bytes) (h : RpmHeader.Header) (hp : RpmHeader.parse b = some h) :
+    (h.region = 0 → ∀ e ∈ h.entries, RpmHeader.Bounded h.data.length e) ∧
+    (h.region ≠ 0 → ∃ e0 rest, h.entries = e0 :: rest ∧ e0.typ = 7 ∧ e0.count = 16 ∧ 0 ≤ e0.offset ∧
+        e0.offset + 16 ≤ (h.data.length : Int) ∧ ∀ e ∈ rest, RpmHeader.Bounded h.data.length e) :=
+  RpmHeader.parse_bounds b h hp
+
+/-- Memory: the slices `ReadData` makes for a verified entry hold at most 16
+    bytes per counted element, and the count is at most the size of the data
+    arena: no allocation beyond 16 × (size of the header). -/
+theorem readData_alloc_le (n : Nat) (e : RpmHeader.Entry) (hb : RpmHeader.Bounded n e) :
+    RpmHeader.allocOf e ≤ 16 * n :=
+  RpmHeader.allocOf_le n e hb
+
+/-- `Header.Parse` followed by `Info.Load` never panics, whatever the bytes:
+    the type assertions of `Load` (regenerated from the source: Gen.Rpm.loadAsserts)
+    are all checked, every value it indexes with `[0]` has count ≥ 1 by
+    `verifyInfo`/`verifyRegion`, empty file names are skipped before `name[1:]`
+    and the file name loop that follows runs under `recover`. -/
+theorem load_no_panic (b : RpmHeader.Bytes) : RpmHeader.run b ≠ .panic := by
+  unfold RpmHeader.run
+  split
+  · simp
+  · rename_i h hp
+    have hg : Gen.Rpm.filenamesGuardsEmpty = true := by decide
+    have hchk : ∀ a ∈ Gen.Rpm.loadAsserts, a.2.2 = true := by decide
+    rw [hg]
+    exact RpmHeader.loadLoop_no_panic _ _ hchk _ _ (RpmHeader.parse_count_pos b h hp)
+
+/-- The 28-byte header of DESIGN §5 row 16: one entry, `TagName` typed INT32. -/
+def nameInt32Header : RpmHeader.Bytes :=
+  [0, 0, 0, 1,  0, 0, 0, 4,   0, 0, 3, 232,  0, 0, 0, 4,  0, 0, 0, 0,  0, 0, 0, 1,   0, 0, 0, 1]
+
+/-- With the bare assertions `v.(string)` of the code before the fix
+    (`fixed:` 309787f9) that header is accepted by `Parse` (no region, so no
+    type check) and `Load` panics. -/
+theorem load_panics_counterexample :
+    (RpmHeader.parse nameInt32Header).map (RpmHeader.load RpmHeader.uncheckedAsserts true) = some .panic := by
+  decide +kernel
+
+/-- ... and with the type check ON (immutable region) a `TagName` typed
+    STRING_ARRAY passes `checkTagType` (same class) and panicked the same way. -/
+def nameStrArrayHeader : RpmHeader.Bytes :=
+  [0, 0, 0, 2,  0, 0, 0, 18,
+   0, 0, 0, 64,  0, 0, 0, 7,  0, 0, 0, 2,  0, 0, 0, 16,
+   0, 0, 3, 232,  0, 0, 0, 8,  0, 0, 0, 0,  0, 0, 0, 1,
+   97, 0,
+   0, 0, 0, 64,  0, 0, 0, 7,  255, 255, 255, 224,  0, 0, 0, 16]
+
+theorem load_panics_typechecked_counterexample :
+    (RpmHeader.parse nameStrArrayHeader).map (RpmHeader.load RpmHeader.uncheckedAsserts true) = some .panic := by
+  decide +kernel
+
+/-- The code as fixed reports an error for both. -/
+theorem load_rejects_witnesses :
+    RpmHeader.run nameInt32Header = .loadErr ∧ RpmHeader.run nameStrArrayHeader = .loadErr := by
   decide +kernel
 
 end ClairModel.Props.C06
